@@ -22,7 +22,11 @@ type vpSymFile struct {
 	closed bool
 	maxEnd int64 // furthest byte offset ever read (ghost)
 	minOff int64 // lowest byte offset ever read (ghost), -1 if none
+	log    []vpReadExtent
 }
+
+// vpReadExtent: one Read call's extent (ghost).
+type vpReadExtent struct{ off, n int64 }
 
 func (f *vpSymFile) Seek(off int64, whence int) (int64, error) {
 	var np int64
@@ -56,6 +60,7 @@ func (f *vpSymFile) Read(p []byte) (int, error) {
 	if f.minOff < 0 || f.pos < f.minOff {
 		f.minOff = f.pos
 	}
+	f.log = append(f.log, vpReadExtent{f.pos, n})
 	f.pos += n
 	if f.pos > f.maxEnd {
 		f.maxEnd = f.pos
